@@ -46,6 +46,12 @@ CHECKS = {
    text="Limit-biased spans (every unit up to its documented limit, both signs, all unit mixes) and absolute durations (up to i64 seconds) are added to / subtracted from dates, datetimes and clock times through checked, saturating, wrapping and operator forms and series; each result (or error) is compared with exact arithmetic on day counts and nanoseconds-of-day.",
    note="Trusted: refarith.rs + refcal.rs. Sampled, not exhaustive.",
    design="DESIGN.md section 3 C08"),
+ "C10": dict(
+   technique="proptest generation of (value on/near the rounding grid, unit, mode, increment incl. illegal ones) against exact integer rounding written from the mode definitions; Zoned oracle via the reference zone reader",
+   category="exploration",
+   text="Values are constructed relative to the grid (multiples, midpoints, +-1ns, cell ends) at the type limits, around zero and uniformly, for Timestamp, Time, DateTime (years <= 0 over-weighted), SignedDuration, Offset and Zoned (around every zone's transitions, real day lengths); all nine modes; legal divisors and illegal increments. Results, errors and increment legality are compared with an exact i128 oracle.",
+   note="Trusted: wide.rs round_to (nine modes from their definitions), refcal/reftz. Hour increments other than 1 for SignedDuration/Offset are not settled by the docs: either outcome accepted. Non-contiguous civil days (fold straddling midnight) are not judged for day rounding.",
+   design="DESIGN.md section 3 C10"),
  "C14": dict(
    technique="model-based differential testing of the following/preceding iterators against the reference transition list (explicit + rule-generated), bounded pulls and to-exhaustion runs under a step cap; structured starts around every hand-over + proptest",
    category="exploration",
